@@ -180,6 +180,13 @@ class World(object):
     def lengths_ok(self):
         for nm, pa in self.pas.items():
             n = pa.get_number_of_particles()
+            tags = pa.get('tag', only_real_particles=False)
+            nloc = int(np.sum(np.asarray(tags) == 0))
+            if pa.get_number_of_particles(True) != nloc or \
+                    any(t != 0 for t in tags[:nloc]):
+                return ('%s reports %d real particles, %d carry the Local '
+                        'tag (tags %r)' % (nm, pa.get_number_of_particles(
+                            True), nloc, list(tags)))
             for p, a in pa.properties.items():
                 if a.length != n * pa.stride.get(p, 1):
                     return '%s.%s has %d values for %d particles' % (
